@@ -34,6 +34,9 @@ import (
 	"github.com/tencent/goom/internal/zzverif/vh"
 )
 
+// c03JumpLen is the number of bytes Guard.Apply overwrites at the entry: taken from the real emitter, never a literal.
+var c03JumpLen = len(jmpToFunctionValue(0x401000, 0x402000))
+
 func c03class(kind, msg string) string {
 	switch {
 	case strings.Contains(msg, "address overflow:"):
@@ -99,7 +102,7 @@ func c03Run(from uintptr, block []byte, tramp uintptr) (res string, out []byte, 
 		}
 	}()
 	cp := append([]byte(nil), block...)
-	data, size, err := fixRelativeAddr(from, cp, tramp, len(cp), 13)
+	data, size, err := fixRelativeAddr(from, cp, tramp, len(cp), c03JumpLen)
 	if err != nil {
 		if len(data) != 0 {
 			return "err-with-data", nil, 0
@@ -154,10 +157,10 @@ func c03PCRel(ins refx86.Inst) (bool, int64, int) {
 // c03Faithful: out (placed at tramp) must be an instruction-by-instruction copy of block[0:n] (placed at from): same
 // operation, prefixes and operands; every PC-relative operand keeps its absolute target when the target lies outside
 // [0,n), and is mapped to the copy of the target instruction when it lies inside; n >= 13 and n is an instruction boundary.
-func c03Faithful(from uint64, block []byte, tramp uint64, out []byte, n int) string {
-	if n < 13 && n != len(block) {
+func c03Faithful(from uint64, block []byte, tramp uint64, out []byte, n int, extent []byte) string {
+	if n < c03JumpLen && n != len(block) {
 		// a whole function shorter than the jump is refused earlier (jumpdata.go genJumpData); a partial copy must cover the jump
-		return "unfaithful:n<13"
+		return "unfaithful:n<jumplen"
 	}
 	if n > len(block) {
 		return "unfaithful:n>len"
@@ -227,7 +230,11 @@ func c03Faithful(from uint64, block []byte, tramp uint64, out []byte, n int) str
 		}
 	}
 	// no instruction of the rest of the function may branch into (0,n)
-	rest, _ := c03RefDecode(block, len(block))
+	// "the function" is NOT goom's own GetFuncSize result here but the extent the linker recorded for the symbol (when known)
+	if len(extent) < len(block) {
+		extent = block
+	}
+	rest, _ := c03RefDecode(extent, len(extent))
 	for _, r := range rest {
 		if h, d, _ := c03PCRel(r.ins); h {
 			t := int64(r.pos+r.ins.Len) + d
@@ -239,7 +246,7 @@ func c03Faithful(from uint64, block []byte, tramp uint64, out []byte, n int) str
 	return "faithful"
 }
 
-func c03Case(out *vh.Out, idx int, from uintptr, block []byte, tramps []uintptr) {
+func c03Case(out *vh.Out, idx int, from uintptr, block []byte, tramps []uintptr, extent []byte) {
 	items, tail := c03Decode(block)
 	ts := make([]string, len(tramps))
 	var res, ver []string
@@ -248,18 +255,19 @@ func c03Case(out *vh.Out, idx int, from uintptr, block []byte, tramps []uintptr)
 		r, data, n := c03Run(from, block, t)
 		res = append(res, r)
 		if data != nil || strings.HasPrefix(r, "ok") {
-			ver = append(ver, c03Faithful(uint64(from), block, uint64(t), data, n))
+			ver = append(ver, c03Faithful(uint64(from), block, uint64(t), data, n, extent))
 		} else {
 			ver = append(ver, "failed-clean")
 		}
 	}
-	op := fmt.Sprintf("c03.reloc 0x%x %d 13 %s %s %s", from, len(block), tail, strings.Join(ts, ","), strings.Join(items, " "))
+	op := fmt.Sprintf("c03.reloc 0x%x %d %d %s %s %s", from, len(block), c03JumpLen, tail, strings.Join(ts, ","), strings.Join(items, " "))
 	out.Put(idx, "%s\t%s\t%s", op, strings.Join(res, " | "), strings.Join(ver, " | "))
 }
 
 type c03fn struct {
 	addr uintptr
 	name string
+	size int // st_size of the ELF symbol: the linker's extent of the function, independent of goom's GetFuncSize
 }
 
 func c03Funcs() []c03fn {
@@ -283,7 +291,7 @@ func c03Funcs() []c03fn {
 			continue
 		}
 		seen[s.Value] = true
-		l = append(l, c03fn{uintptr(s.Value), s.Name})
+		l = append(l, c03fn{uintptr(s.Value), s.Name, int(s.Size)})
 	}
 	sort.Slice(l, func(i, j int) bool { return l[i].addr < l[j].addr })
 	return l
@@ -343,11 +351,18 @@ func c03JumpBack(origin uintptr, block []byte, pl uintptr, res string, after []b
 	if len(after) < len(data)+16 {
 		return "n/a"
 	}
-	if string(after[:len(data)]) != string(data) {
+	if n >= len(block) {
+		// the whole function was consumed: the placeholder must hold the RELOCATED instructions (no jump back needed)
+		switch {
+		case string(after[:len(data)]) == string(data):
+			return "whole-function"
+		case string(after[:len(block)]) == string(block):
+			return "whole-function-raw-copy" // the unrelocated original bytes were written
+		}
 		return "prefix-differs"
 	}
-	if n >= len(block) {
-		return "whole-function"
+	if string(after[:len(data)]) != string(data) {
+		return "prefix-differs"
 	}
 	tail := after[len(data):]
 	ins, err := refx86.Decode(tail[:16], 64)
@@ -387,11 +402,16 @@ func c03Page() []byte {
 	return pg
 }
 
-func c03Small(out *vh.Out, idx int, originOff, trampOff, tsize int, fn []byte) {
+func c03Small(out *vh.Out, idx int, originOff, trampOff, tsize int, fn []byte, exact bool) {
 	pg := c03Page()
 	base := uintptr(unsafe.Pointer(&pg[0]))
 	copy(pg[originOff:], fn)
-	pg[originOff+len(fn)] = 0xC3 // the "next function"
+	if exact {
+		// no padding at all: the next function starts right behind, with the prologue fingerprint GetFuncSize looks for
+		copy(pg[originOff+len(fn):], []byte{0x65, 0x48, 0x8b, 0x0c, 0x25, 0x30, 0x00, 0x00, 0x00, 0x48, 0x3b, 0x61, 0x10, 0xc3})
+	} else {
+		pg[originOff+len(fn)] = 0xC3 // the "next function"
+	}
 	for i := 0; i < tsize-2; i++ {
 		pg[trampOff+i] = 0x90
 	}
@@ -419,7 +439,7 @@ func c03Tramp(out *vh.Out, idx int, origin uintptr, places []uintptr, window int
 					r = c03class("panic", fmt.Sprint(e))
 				}
 			}()
-			p, err := fixOriginFuncToTrampoline(origin, pl, 13)
+			p, err := fixOriginFuncToTrampoline(origin, pl, c03JumpLen)
 			if err != nil {
 				return c03class("err", err.Error())
 			}
@@ -487,18 +507,22 @@ func TestVerifC03(t *testing.T) {
 						tramps = append(tramps, uintptr(int64(from)+int64(size)+d))
 					}
 				}
-				c03Case(out, op.Idx, from, block, tramps)
+				var extent []byte
+				if fns[k].size > 0 && fns[k].size < 1<<17 {
+					extent = append([]byte(nil), memory.RawRead(from, fns[k].size)...)
+				}
+				c03Case(out, op.Idx, from, block, tramps, extent)
 				done++
 			}
 		case "c03.small":
-			c03Small(out, op.Idx, int(vh.I64(op.Toks[1])), int(vh.I64(op.Toks[2])), int(vh.I64(op.Toks[3])), vh.UnHex(op.Toks[4]))
+			c03Small(out, op.Idx, int(vh.I64(op.Toks[1])), int(vh.I64(op.Toks[2])), int(vh.I64(op.Toks[3])), vh.UnHex(op.Toks[4]), len(op.Toks) > 5 && op.Toks[5] == "x")
 		case "c03.zoo":
 			from := uintptr(vh.U64(op.Toks[2]))
 			var tramps []uintptr
 			for _, d := range c03Ints(op.Toks[3]) {
 				tramps = append(tramps, uintptr(d))
 			}
-			c03Case(out, op.Idx, from, vh.UnHex(op.Toks[4]), tramps)
+			c03Case(out, op.Idx, from, vh.UnHex(op.Toks[4]), tramps, nil)
 		}
 	}
 }
